@@ -289,7 +289,8 @@ pub fn run_shard(prop: &Property, tier: Tier, seed: u64, spec: &ShardSpec) -> Ct
             let s = started.load(Ordering::Relaxed);
             if s != 0 {
                 let now = t0.elapsed().as_millis() as u64;
-                if now > s + CASE_WALL_LIMIT.as_millis() as u64 {
+                let limit_ms = std::env::var("VERIF_CASE_WALL_S").ok().and_then(|v| v.parse::<u64>().ok()).map(|v| v * 1000).unwrap_or(CASE_WALL_LIMIT.as_millis() as u64);
+                if now > s + limit_ms {
                     eprintln!("attoverif: case exceeded the wall limit; exiting shard with status 3");
                     if let Some(o) = &out {
                         let _ = fs::write(format!("{o}.stuck"), b"stuck");
